@@ -94,6 +94,42 @@ pub fn run(out: &mut Out, seed: u64, tier: &str) {
             out.case(&format!("history {} {} | {} | {}", kind, m.n(), tt, reqs.join(";")), &answers.join(";"));
         }
     }
+    // large systems (a code path chosen by size is chosen here): boxes of 64-216 waters (192-648 atoms, up to ~200 000 terms), a
+    // short history G(A) G(A) E(A) G(B) E(B) G(A) on one object, every answer against a fresh object's. Too large for the model
+    // line: the fresh-object oracle only.
+    let mut n_large = 0usize;
+    let sides: Vec<usize> = if tier == "thorough" { vec![4, 5, 6] } else { vec![5] };
+    for side in sides {
+        let w = library()[0].clone();
+        let mut big = Mol { name: format!("water-box-{}", side * side * side), zs: vec![], xs: vec![] };
+        for a in 0..side { for b in 0..side { for c in 0..side {
+            for (z, p) in w.zs.iter().zip(w.xs.iter()) { big.zs.push(*z); big.xs.push([p[0] + 3.1 * a as f64, p[1] + 3.1 * b as f64, p[2] + 3.1 * c as f64]); }
+        } } }
+        let mol = match catch(|| big.build()) { Some(x) => x, None => continue };
+        for kind in ["uff", "rb"] {
+            let mut used = match FF::build(kind, &mol) { Some(f) => f, None => continue };
+            let a = big.points();
+            let b = distort(&big, 0.05, &mut rng).points();
+            let replay = format!("{} on a box of {} waters ({} atoms, {} terms): G(A) G(A) E(A) G(B) E(B) G(A)", kind, side * side * side, big.n(), used.terms().len());
+            let script: [(char, &Vec<Point>); 6] = [('G', &a), ('G', &a), ('E', &a), ('G', &b), ('E', &b), ('G', &a)];
+            for (k, (what, x)) in script.iter().enumerate() {
+                let mut fresh = match FF::build(kind, &mol) { Some(f) => f, None => break };
+                if *what == 'E' {
+                    let (got, want) = (used.energy(x), fresh.energy(x));
+                    if hx(got) != hx(want) { out.oracle_fail(&format!("large system, request {} (energy): the used object answered {} but a fresh object answers {}", k, got, want), &replay); break; }
+                } else {
+                    let (got, want) = (used.gradient(x), fresh.gradient(x));
+                    if fnv(&got) != fnv(&want) {
+                        let worst = got.iter().zip(want.iter()).map(|(p, q)| (p - q).abs()).fold(0.0f64, f64::max);
+                        out.oracle_fail(&format!("large system, request {} (gradient): the used object's answer differs from a fresh object's (largest difference {:e})", k, worst), &replay); break;
+                    }
+                }
+                n_req += 1;
+            }
+            n_large += 1;
+        }
+    }
+    out.stat("large_system_histories", n_large);
     out.stat("histories", n_hist);
     out.stat("primitive_requests", n_req);
     out.stat("numerical_gradient_calls", n_ng);
